@@ -1,0 +1,38 @@
+package templ_test
+
+import (
+	"context"
+	"errors"
+	"io"
+	"net/http"
+	"net/http/httptest"
+	"strings"
+	"testing"
+
+	"github.com/a-h/templ"
+)
+
+func TestHandlerErrorPageAfterFailedRender(t *testing.T) {
+	class := templ.ComponentCSSClass{ID: "blue", Class: templ.SafeCSS(".blue{color:blue;}")}
+	page := func(err error) templ.Component {
+		return templ.ComponentFunc(func(ctx context.Context, w io.Writer) error {
+			if err := templ.RenderCSSItems(ctx, w, class); err != nil {
+				return err
+			}
+			if _, err := io.WriteString(w, `<div class="blue"></div>`); err != nil {
+				return err
+			}
+			return err
+		})
+	}
+	// The failed page is discarded, so the error page has to bring the style with it.
+	h := templ.NewCSSMiddleware(templ.Handler(page(errors.New("failed")), templ.WithErrorHandler(func(r *http.Request, err error) http.Handler {
+		return templ.Handler(page(nil))
+	})))
+	w := httptest.NewRecorder()
+	h.ServeHTTP(w, httptest.NewRequest(http.MethodGet, "/", nil))
+	expected := `<style type="text/css">.blue{color:blue;}</style><div class="blue"></div>`
+	if actual := w.Body.String(); !strings.Contains(actual, expected) || strings.Count(actual, ".blue{") != 1 {
+		t.Errorf("expected the error page to define the class it uses exactly once, got %q", actual)
+	}
+}
